@@ -64,6 +64,7 @@ def no_fbod(t):
     return not any(f["fbod"] for f in getattr(t, "fields", [])) and all(no_fbod(k) for k in t.kids)
 
 
+OBJ_KINDS = {"dataclass", "namedtuple", "typeddict"}
 VOCAB_NEW = {"prefixItems", "$defs", "dependentRequired", "unevaluatedProperties"}
 VOCAB_BY_VERSION = {"DRAFT_7": {"prefixItems", "$defs", "dependentRequired", "unevaluatedProperties"},
                     "DRAFT_2019_09": {"prefixItems"},
@@ -234,6 +235,20 @@ def run(prop, seed, budget, ctx):
             new = keywords(real) & VOCAB_BY_VERSION[ver]
             if new:
                 failures.append(pack(t, kind="P", ap=ap, version=ver, k_ok=k_ok, real=real, why=["keyword-outside-the-target-vocabulary:" + ",".join(sorted(new))]))
+            # the definitions entry point, one side and both sides merged: the same vocabulary at every level
+            if OBJ_KINDS & t.features():
+                from apischema.json_schema import definitions_schema
+                for sides in ("deserialization", "both"):
+                    kw = {"deserialization": [tp]} if sides == "deserialization" else {"deserialization": [tp], "serialization": [tp]}
+                    try: ds = dict(definitions_schema(version=getattr(JsonSchemaVersion, ver), all_refs=True, additional_properties=ap, **kw))
+                    except TypeError: hist["definitions:both-sides-differ"] += 1; continue       # "Reference ... has different schemas"
+                    except Exception as e: hist["definitions-exc:" + type(e).__name__] += 1; continue
+                    hist["definitions:" + sides] += 1
+                    bad = keywords({"definitions": ds}) & VOCAB_BY_VERSION[ver]
+                    if ver == "OPEN_API_3_0" and [x for x in all_types(ds) if not isinstance(x, str)]: bad = bad | {"type-list"}
+                    if bad:
+                        failures.append(pack(t, kind="P", ap=ap, version=ver, k_ok=k_ok, real=ds, sides=sides,
+                                             why=["keyword-outside-the-target-vocabulary:" + ",".join(sorted(bad))])); break
             if ver in ("DRAFT_7", "DRAFT_2019_09"):
                 V = jsonschema.Draft7Validator if ver == "DRAFT_7" else jsonschema.Draft201909Validator
                 v, v0 = V(real), jsonschema.Draft202012Validator(base)
